@@ -82,6 +82,7 @@ int main(int argc, char **argv) {
     else if (a == "--seed") seed = strtoull(next().c_str(), 0, 10);
     else if (a == "--no-overflow") opt_overflow = false;
     else if (a == "--no-uninit") opt_uninit = false;
+    else if (a == "--no-pin") { extern bool opt_pin; opt_pin = false; }
     else if (a == "--dump-dir") opt_dumpdir = next();
     else if (a == "--dump-every") opt_dump_every = atoi(next().c_str());
     else if (a[0] == '-') die("unknown option " + a);
